@@ -23,6 +23,8 @@ type asPlan struct {
 	ops      [][2]string // operations the random scenarios draw from
 	vias     []string    // reference provenances the random scenarios draw from (nil: ActorOf references only)
 	rule     string
+	// directed, if set, produces every fifth "random" scenario: a family aimed at a clause that needs a particular shape
+	directed func(rng *rand.Rand) (*asScenario, []asStep)
 }
 
 // asTags derives scenario-class tags from a recorded trace (the same rule for TLC-generated and random scenarios).
@@ -76,6 +78,42 @@ func asRandomScenario(rng *rand.Rand, ops [][2]string, vias []string) (*asScenar
 	}
 	if rng.Intn(5) == 0 {
 		sc.Cfg.HookFail = []string{sc.Names[rng.Intn(len(sc.Names))], []string{"prerestart", "restarted", "prelaunch"}[rng.Intn(3)]}
+		if rng.Intn(2) == 0 {
+			sc.Cfg.HookFailMode = "panic"
+		}
+	}
+	hasKids := func(n string) bool {
+		for _, p := range par {
+			if p == n {
+				return true
+			}
+		}
+		return false
+	}
+	var parents []string
+	for _, n := range sc.Names {
+		if hasKids(n) {
+			parents = append(parents, n)
+		}
+	}
+	if rng.Intn(6) == 0 {
+		sc.Cfg.KilledFail = []string{parents[rng.Intn(len(parents))]}
+	}
+	if rng.Intn(6) == 0 {
+		p := parents[rng.Intn(len(parents))]
+		sc.Cfg.LateSpawn = []string{p}
+		// the late child is known to the scenario (path, parent) but is not spawned at launch
+		cp := map[string]string{}
+		for k, v := range par {
+			cp[k] = v
+		}
+		cp[p+"x"] = p
+		sc.Parent = cp
+	}
+	if rng.Intn(4) == 0 {
+		// a supervisor whose decisions differ from one consultation to the next
+		p := parents[rng.Intn(len(parents))]
+		sc.Cfg.DecisionSeq = map[string][]string{p: {decs[rng.Intn(len(decs))], decs[rng.Intn(len(decs))], decs[rng.Intn(len(decs))]}}
 	}
 	var steps []asStep
 	for _, n := range sc.Names {
@@ -84,7 +122,31 @@ func asRandomScenario(rng *rand.Rand, ops [][2]string, vias []string) (*asScenar
 		}
 	}
 	nOps := 3 + rng.Intn(10)
+	canFail := false
+	for _, o := range ops {
+		if o[0] == "fail" {
+			canFail = true
+		}
+	}
+	burstAt := -1
+	if canFail && rng.Intn(3) == 0 {
+		burstAt = rng.Intn(nOps)
+	}
 	for i := 0; i < nOps; i++ {
+		if i == burstAt {
+			// overlapping failures: two children of one parent fail in the same burst
+			p := parents[rng.Intn(len(parents))]
+			var kids []string
+			for _, n := range sc.Names {
+				if par[n] == p {
+					kids = append(kids, n)
+				}
+			}
+			for _, k := range kids {
+				steps = append(steps, asStep{A: "tell", X: k, Op: "fail"})
+			}
+			continue
+		}
 		x := sc.Names[rng.Intn(len(sc.Names))]
 		if rng.Intn(7) == 0 {
 			steps = append(steps, asStep{A: "kill", X: x, Poison: rng.Intn(2) == 0})
@@ -100,6 +162,33 @@ func asRandomScenario(rng *rand.Rand, ops [][2]string, vias []string) (*asScenar
 			via = vias[rng.Intn(len(vias))]
 		}
 		steps = append(steps, asStep{A: "tell", X: x, Op: o[0], Arg: arg, Via: via})
+	}
+	return sc, steps
+}
+
+// asOverlappingEscalations: a supervisor in the middle of the tree escalates, two of its children fail in one burst,
+// the grandparent answers Resume: every escalation must be put to the grandparent.
+func asOverlappingEscalations(rng *rand.Rand) (*asScenario, []asStep) {
+	par := map[string]string{"t": "root", "a": "t", "b": "t", "c": "a", "d": "a", "e": "c"}
+	sc := &asScenario{Parent: par, Names: []string{"a", "b", "c", "d", "e", "t"}, Cfg: asConfig{Decision: map[string]string{}, Strategy: map[string]string{}}}
+	decs := []string{"restart", "grestart", "stop", "gstop", "resume", "escalate"}
+	for _, n := range sc.Names {
+		sc.Cfg.Decision[n] = decs[rng.Intn(len(decs))]
+		sc.Cfg.Strategy[n] = []string{"ofo", "ofa"}[rng.Intn(2)]
+	}
+	sc.Cfg.Decision["a"] = "escalate"
+	sc.Cfg.Decision["t"] = "resume"
+	steps := []asStep{{A: "spawn", X: "t"}}
+	burst := []asStep{{A: "tell", X: "c", Op: "fail"}, {A: "tell", X: "d", Op: "fail"}}
+	if rng.Intn(2) == 0 {
+		burst[0], burst[1] = burst[1], burst[0]
+	}
+	for i := 0; i < rng.Intn(3); i++ {
+		steps = append(steps, asStep{A: "tell", X: sc.Names[rng.Intn(len(sc.Names))], Op: "nop"})
+	}
+	steps = append(steps, burst...)
+	for i := 0; i < rng.Intn(4); i++ {
+		steps = append(steps, asStep{A: "tell", X: sc.Names[rng.Intn(len(sc.Names))], Op: []string{"nop", "fail"}[rng.Intn(2)]})
 	}
 	return sc, steps
 }
@@ -172,6 +261,9 @@ func asCheck(c *core.Ctx, plan asPlan) {
 	var rj []*asBehaviour
 	for i := 0; i < core.Pick(c, 400, 6000); i++ {
 		sc, steps := asRandomScenario(rng, plan.ops, plan.vias)
+		if plan.directed != nil && i%5 == 4 {
+			sc, steps = plan.directed(rng)
+		}
 		rj = append(rj, &asBehaviour{Scen: *sc, Steps: steps})
 	}
 	sem := make(chan struct{}, 12)
@@ -281,7 +373,7 @@ func init() {
 			rule: base + "Judged by StreamMon."})
 	})
 	register("C08", func(c *core.Ctx) {
-		asCheck(c, asPlan{prop: "C08", monitors: []string{"SuperviseMon"}, mc: t3, gen: g3, ops: [][2]string{{"nop", ""}, {"nop", ""}, {"fail", ""}, {"tell", "@"}},
+		asCheck(c, asPlan{prop: "C08", monitors: []string{"SuperviseMon"}, mc: t3, gen: g3, ops: [][2]string{{"nop", ""}, {"nop", ""}, {"fail", ""}, {"tell", "@"}}, directed: asOverlappingEscalations,
 			rule: base + "Judged by SuperviseMon."})
 	})
 	register("C05", func(c *core.Ctx) {
